@@ -1,20 +1,406 @@
 package main
 
-import (
-	"math/rand"
+// C16, sandbox kinds: every call runs in a fresh temporary directory
+//
+//   <tmp>/outside/target      a canary file
+//   <tmp>/outside/dir/keep    a canary directory
+//   <tmp>/work/dest           the destination (a strict subdirectory), with files/dirs/symlinks
+//                             planted by the case
+//
+// and the tree is snapshotted (path -> type + sha256 / link target) before and after.
+// Oracle: every path that differs lies inside the destination; nothing was written through
+// a planted symlink.
+//
+//   expand    chartutil.Expand / ExpandFile on a generated tar stream
+//   extract   installer.TarGzExtractor.Extract (the plugin installer's extractor)
+//   download  downloader.ChartDownloader.DownloadTo from a local httptest server
+//   lock      downloader.Manager.Update on <tmp>/work/dest (a chart with a file:// dependency)
+//             with something planted at Chart.lock / requirements.lock; also compared with Chart/Lock.v
 
+import (
+	"bytes"
+	"crypto/sha256"
+	"encoding/hex"
+	"fmt"
+	"io"
+	"math/rand"
+	"net/http"
+	"net/http/httptest"
+	"net/url"
+	"os"
+	"path/filepath"
+	"sort"
+	"strings"
+
+	chartutil "helm.sh/helm/v4/pkg/chart/v2/util"
+	"helm.sh/helm/v4/pkg/cli"
+	"helm.sh/helm/v4/pkg/downloader"
+	"helm.sh/helm/v4/pkg/getter"
+	"helm.sh/helm/v4/pkg/plugin/installer"
+
+	"verif/harness/internal/chartx"
 	"verif/harness/internal/hx"
 )
 
 type c16Plant struct {
-	Path   string `json:"path"`
-	Kind   string `json:"kind"` // file | dir | symlink
-	Target string `json:"target,omitempty"`
+	Path   string `json:"path"`             // relative to the destination
+	Kind   string `json:"kind"`             // file | dir | symlink
+	Target string `json:"target,omitempty"` // symlink target; "$OUT" is replaced by <tmp>/outside
 }
 
-func c16ExecSandbox(c *c16Case) c16Obs                        { return c16Obs{} }
-func c16OracleSandbox(c *c16Case, obs *c16Obs) []hx.Violation { return nil }
-func c16CoqSandbox(c *c16Case, obs *c16Obs) string            { return "COracleOnly" }
-func c16GenSandbox(r *rand.Rand) c16Case                      { return c16GenJoin(r) }
-func c16CorpusSandbox() []any                                 { return nil }
-func c16Exhaustive(tier string) []any                         { return nil }
+func c16Snapshot(root string) map[string]string {
+	snap := map[string]string{}
+	filepath.Walk(root, func(p string, fi os.FileInfo, err error) error {
+		if err != nil {
+			return nil
+		}
+		rel, _ := filepath.Rel(root, p)
+		switch {
+		case fi.Mode()&os.ModeSymlink != 0:
+			t, _ := os.Readlink(p)
+			snap[rel] = "symlink:" + t
+		case fi.IsDir():
+			snap[rel] = "dir"
+		default:
+			b, _ := os.ReadFile(p)
+			h := sha256.Sum256(b)
+			snap[rel] = "file:" + hex.EncodeToString(h[:8])
+		}
+		return nil
+	})
+	return snap
+}
+
+func c16Diff(a, b map[string]string) []string {
+	var out []string
+	for k, v := range a {
+		if b[k] != v {
+			out = append(out, k)
+		}
+	}
+	for k := range b {
+		if _, ok := a[k]; !ok {
+			out = append(out, k)
+		}
+	}
+	sort.Strings(out)
+	return out
+}
+
+func c16Setup(c *c16Case) (tmp, dest string, err error) {
+	tmp, err = os.MkdirTemp("", "c16-")
+	if err != nil {
+		return "", "", err
+	}
+	// resolve symlinks in the temp path itself so that lexical comparisons are meaningful
+	if r, e := filepath.EvalSymlinks(tmp); e == nil {
+		tmp = r
+	}
+	os.MkdirAll(filepath.Join(tmp, "outside", "dir"), 0o755)
+	os.WriteFile(filepath.Join(tmp, "outside", "target"), []byte("canary"), 0o644)
+	os.WriteFile(filepath.Join(tmp, "outside", "dir", "keep"), []byte("keep"), 0o644)
+	dest = filepath.Join(tmp, "work", "dest")
+	os.MkdirAll(dest, 0o755)
+	for _, p := range c.Plant {
+		full := filepath.Join(dest, filepath.FromSlash(p.Path))
+		os.MkdirAll(filepath.Dir(full), 0o755)
+		switch p.Kind {
+		case "file":
+			os.WriteFile(full, []byte("digest: planted\n"), 0o644)
+		case "dir":
+			os.MkdirAll(full, 0o755)
+		case "symlink":
+			os.Symlink(strings.ReplaceAll(p.Target, "$OUT", filepath.Join(tmp, "outside")), full)
+		}
+	}
+	return tmp, dest, nil
+}
+
+func c16NodeKind(p string) string {
+	fi, err := os.Lstat(p)
+	switch {
+	case err != nil:
+		return "none"
+	case fi.Mode()&os.ModeSymlink != 0:
+		return "symlink"
+	case fi.IsDir():
+		return "dir"
+	}
+	return "file"
+}
+
+const c16DepChart = "apiVersion: v2\nname: dep\nversion: 0.1.0\n"
+
+func c16ExecSandbox(c *c16Case) (obs c16Obs) {
+	tmp, dest, err := c16Setup(c)
+	if err != nil {
+		return c16Obs{Panic: "setup: " + err.Error()}
+	}
+	defer os.RemoveAll(tmp)
+	var srv *httptest.Server
+	var gz []byte
+	switch c.Kind {
+	case "expand", "extract":
+		gz = c16Gzip(c)
+	case "download":
+		srv = httptest.NewServer(http.HandlerFunc(func(w http.ResponseWriter, _ *http.Request) {
+			w.Header().Set("Content-Type", "application/gzip")
+			w.Write([]byte("chart-bytes"))
+		}))
+		defer srv.Close()
+	case "lock":
+		// the chart lives in the destination; the dependency next to it (inside work/, outside dest)
+		dep := filepath.Join(tmp, "work", "dep")
+		os.MkdirAll(dep, 0o755)
+		os.WriteFile(filepath.Join(dep, "Chart.yaml"), []byte(c16DepChart), 0o644)
+		deps := "dependencies:\n- name: dep\n  version: 0.1.0\n  repository: file://../dep\n"
+		if c.Legacy {
+			os.WriteFile(filepath.Join(dest, "Chart.yaml"), []byte("apiVersion: v1\nname: top\nversion: 0.1.0\n"), 0o644)
+			os.WriteFile(filepath.Join(dest, "requirements.yaml"), []byte(deps), 0o644)
+		} else {
+			os.WriteFile(filepath.Join(dest, "Chart.yaml"), []byte("apiVersion: v2\nname: top\nversion: 0.1.0\n"+deps), 0o644)
+		}
+		os.MkdirAll(filepath.Join(tmp, "work", "helm"), 0o755)
+	}
+	lockName := "Chart.lock"
+	if c.Legacy {
+		lockName = "requirements.lock"
+	}
+	obs.LockPre = c16NodeKind(filepath.Join(dest, lockName))
+	before := c16Snapshot(tmp)
+	func() {
+		defer func() {
+			if r := recover(); r != nil {
+				obs.Panic = fmt.Sprint(r)
+			}
+		}()
+		var err error
+		switch c.Kind {
+		case "expand":
+			if c.Note == "file" {
+				src := filepath.Join(tmp, "work", "in.tgz")
+				os.WriteFile(src, gz, 0o644)
+				before = c16Snapshot(tmp)
+				err = chartutil.ExpandFile(dest, src)
+			} else {
+				err = chartutil.Expand(dest, bytes.NewReader(gz))
+			}
+		case "extract":
+			err = (&installer.TarGzExtractor{}).Extract(bytes.NewBuffer(gz), dest)
+		case "download":
+			dl := &downloader.ChartDownloader{Out: io.Discard, Verify: downloader.VerifyNever, Getters: getter.All(cli.New()),
+				RepositoryConfig: filepath.Join(tmp, "work", "helm", "repositories.yaml"), RepositoryCache: filepath.Join(tmp, "work", "helm", "cache")}
+			var out string
+			out, _, err = dl.DownloadTo(srv.URL+c.URLPath, "", dest)
+			if err == nil {
+				obs.Path = filepath.Base(out)
+			}
+			if u, e := url.Parse(srv.URL + c.URLPath); e == nil {
+				obs.URLPathDecoded = u.Path
+			} else {
+				obs.URLPathDecoded = "\x00unparsable"
+			}
+		case "lock":
+			m := &downloader.Manager{Out: io.Discard, ChartPath: dest, SkipUpdate: true, Getters: getter.All(cli.New()),
+				RepositoryConfig: filepath.Join(tmp, "work", "helm", "repositories.yaml"), RepositoryCache: filepath.Join(tmp, "work", "helm", "cache")}
+			err = m.Update()
+		}
+		if err != nil {
+			obs.Err = "error"
+			if strings.Contains(err.Error(), "cannot derive a file name") {
+				obs.Err = "noname"
+			}
+		}
+	}()
+	after := c16Snapshot(tmp)
+	obs.Changed = c16Diff(before, after)
+	obs.LockPost = c16NodeKind(filepath.Join(dest, lockName))
+	return obs
+}
+
+func c16OracleSandbox(c *c16Case, obs *c16Obs) []hx.Violation {
+	var vs []hx.Violation
+	inside := "work/dest"
+	for _, p := range obs.Changed {
+		if p == inside || strings.HasPrefix(p, inside+"/") {
+			continue
+		}
+		if strings.HasPrefix(p, "work/helm") { // Helm's own cache/config directory, not a destination
+			continue
+		}
+		sig := "C16:" + c.Kind + "-writes-outside-destination"
+		vs = append(vs, hx.Violation{Sig: sig, What: fmt.Sprintf("%s changed %q, which is outside the destination directory (plants %v, url path %q)", c.Kind, p, c.Plant, c.URLPath)})
+		break
+	}
+	if c.Kind == "lock" && obs.LockPre == "symlink" && obs.Err == "" {
+		vs = append(vs, hx.Violation{Sig: "C16:lock-written-through-symlink", What: "Manager.Update succeeded although a symlink is planted at the lock path"})
+	}
+	if c.Kind == "lock" && obs.LockPre == "symlink" && obs.LockPost != "symlink" {
+		vs = append(vs, hx.Violation{Sig: "C16:lock-symlink-replaced", What: "the symlink at the lock path was replaced"})
+	}
+	return vs
+}
+
+func c16CoqSandbox(c *c16Case, obs *c16Obs) string {
+	if c.Kind == "download" {
+		// compare only when the URL parsed, the download itself worked or was refused for its
+		// name, and nothing is planted at the target (a planted symlink is the oracle's business)
+		if strings.HasPrefix(obs.URLPathDecoded, "\x00") || len(c.Plant) > 0 || obs.Err == "error" {
+			return "COracleOnly"
+		}
+		o := "None"
+		if obs.Err == "" {
+			o = "(Some " + chartx.CoqStr(obs.Path) + ")"
+		}
+		return fmt.Sprintf("CDownload %s %s", chartx.CoqStr(obs.URLPathDecoded), o)
+	}
+	if c.Kind != "lock" {
+		return "COracleOnly"
+	}
+	pre := "None"
+	if len(c.Plant) > 1 || (len(c.Plant) == 1 && c.Plant[0].Path != "Chart.lock" && c.Plant[0].Path != "requirements.lock") {
+		return "COracleOnly" // other plants can stop Update before it reaches writeLock
+	}
+	for _, p := range c.Plant {
+		if p.Path == "Chart.lock" || p.Path == "requirements.lock" {
+			switch p.Kind {
+			case "file":
+				pre = `(Some (NFile "planted"))`
+			case "dir":
+				pre = "(Some NDir)"
+			case "symlink":
+				pre = "(Some (NSymlink " + chartx.CoqStr(strings.ReplaceAll(p.Target, "$OUT", "/sandbox/outside")) + "))"
+			}
+		}
+	}
+	o := "LWritten"
+	if obs.Err != "" {
+		o = "LRefused"
+	}
+	outside := false
+	for _, p := range obs.Changed {
+		if strings.HasPrefix(p, "outside") {
+			outside = true
+		}
+	}
+	// the model speaks about the lock path only when Update got as far as writeLock: a
+	// refusal is also what a failure before that point looks like
+	return fmt.Sprintf("CLock %s %s %s %s", pre, hx.CoqBool(c.Legacy), o, hx.CoqBool(outside))
+}
+
+var c16PlantPool = []c16Plant{
+	{Path: "mychart", Kind: "symlink", Target: "$OUT/dir"},
+	{Path: "mychart", Kind: "symlink", Target: "../../outside/dir"},
+	{Path: "mychart/templates", Kind: "symlink", Target: "$OUT/dir"},
+	{Path: "mychart/templates/a.yaml", Kind: "symlink", Target: "$OUT/target"},
+	{Path: "mychart/Chart.yaml", Kind: "symlink", Target: "$OUT/target"},
+	{Path: "mychart/Chart.yaml", Kind: "symlink", Target: "../../../outside/target"},
+	{Path: "mychart/new", Kind: "symlink", Target: "$OUT/created-by-write"},
+	{Path: "mychart/files", Kind: "file"},
+	{Path: "mychart", Kind: "file"},
+	{Path: "bin", Kind: "symlink", Target: "$OUT/dir"},
+	{Path: "plugin.yaml", Kind: "symlink", Target: "$OUT/target"},
+	{Path: "bin/x", Kind: "symlink", Target: "$OUT/target"},
+	{Path: "loop", Kind: "symlink", Target: "loop"},
+	{Path: "a", Kind: "symlink", Target: "/"},
+	{Path: "x.tgz", Kind: "symlink", Target: "$OUT/target"},
+	{Path: "chart-1.0.0.tgz", Kind: "symlink", Target: "$OUT/target"},
+}
+
+var c16URLPaths = []string{"/charts/chart-1.0.0.tgz", "/charts/x.tgz", "/x.tgz", "/charts/..%2F..%2Fx.tgz", "/charts/%2e%2e", "/charts/..", "/", "/charts/",
+	"/charts/.", "/a/b/../../../../x.tgz", "/charts/x.tgz?file=../../y", "/charts/%2Fabs.tgz", "/charts/..%5C..%5Cx.tgz", "/c%00.tgz", "//x.tgz", "/charts/x.tgz/"}
+
+func c16GenSandbox(r *rand.Rand) c16Case {
+	switch r.Intn(5) {
+	case 0: // download
+		c := c16Case{Kind: "download", URLPath: c16URLPaths[r.Intn(len(c16URLPaths))]}
+		if r.Intn(3) == 0 {
+			c.Plant = append(c.Plant, c16PlantPool[len(c16PlantPool)-1-r.Intn(2)])
+		}
+		return c
+	case 1: // lock
+		c := c16Case{Kind: "lock", Legacy: r.Intn(3) == 0}
+		name := "Chart.lock"
+		if c.Legacy {
+			name = "requirements.lock"
+		}
+		switch r.Intn(7) {
+		case 0:
+		case 1:
+			c.Plant = []c16Plant{{Path: name, Kind: "file"}}
+		case 2:
+			c.Plant = []c16Plant{{Path: name, Kind: "dir"}}
+		case 3:
+			c.Plant = []c16Plant{{Path: name, Kind: "symlink", Target: "$OUT/target"}}
+		case 4:
+			c.Plant = []c16Plant{{Path: name, Kind: "symlink", Target: "../../outside/target"}}
+		case 5:
+			c.Plant = []c16Plant{{Path: name, Kind: "symlink", Target: "$OUT/dangling"}}
+		case 6:
+			c.Plant = []c16Plant{{Path: name, Kind: "symlink", Target: "other.lock"}}
+		}
+		if r.Intn(4) == 0 { // also something at the other lock name and in charts/
+			c.Plant = append(c.Plant, c16Plant{Path: "charts", Kind: "symlink", Target: "$OUT/dir"})
+		}
+		return c
+	default: // expand / extract
+		c := c16GenArch(r)
+		c.MaxTotal, c.MaxFile = 0, 0
+		c.Kind = []string{"expand", "extract"}[r.Intn(2)]
+		if c.Kind == "expand" {
+			name := []string{"mychart", "mychart", "mychart", "../evil", "/abs", "a/b", "..", ".", "", "my\\chart"}[r.Intn(10)]
+			first := c16Ent{Name: "x/Chart.yaml", Type: '0', Mode: 0o644, Size: -1, Data: []byte(fmt.Sprintf("apiVersion: v2\nname: %q\nversion: 0.1.0\n", name))}
+			c.Ents = append([]c16Ent{first}, c.Ents...)
+			if r.Intn(3) == 0 {
+				c.Note = "file"
+			}
+		}
+		for i := r.Intn(3); i > 0; i-- {
+			c.Plant = append(c.Plant, c16PlantPool[r.Intn(len(c16PlantPool))])
+		}
+		return c
+	}
+}
+
+func c16CorpusSandbox() []any {
+	var out []any
+	reg := func(name, data string) c16Ent {
+		return c16Ent{Name: name, Type: '0', Mode: 0o644, Size: -1, Data: []byte(data)}
+	}
+	chartYaml := reg("x/Chart.yaml", "apiVersion: v2\nname: mychart\nversion: 0.1.0\n")
+	// Expand into a destination where the chart directory / a file position is a planted symlink
+	for _, p := range c16PlantPool[:9] {
+		out = append(out, c16Case{Kind: "expand", Plant: []c16Plant{p}, Ents: []c16Ent{chartYaml, reg("x/templates/a.yaml", "a"), reg("x/new", "n"), reg("x/files/f", "f")}})
+	}
+	out = append(out, c16Case{Kind: "expand", Ents: []c16Ent{reg("x/Chart.yaml", "apiVersion: v2\nname: ../../outside/evil\nversion: 0.1.0\n"), reg("x/f", "f")}})
+	out = append(out, c16Case{Kind: "expand", Note: "file", Ents: []c16Ent{chartYaml, {Name: "x/link", Type: '2', Mode: 0o777, Link: "../../outside/target"}, reg("x/link", "through?")}})
+	// plugin extractor
+	for _, p := range c16PlantPool[9:14] {
+		out = append(out, c16Case{Kind: "extract", Plant: []c16Plant{p}, Ents: []c16Ent{reg("plugin.yaml", "name: p"), {Name: "bin", Type: '5', Mode: 0o755}, reg("bin/x", "#!/bin/sh"), reg("a/etc/x", "x")}})
+	}
+	for _, n := range []string{"../escape", "/abs", "a/../../b", "c:evil", "a\\..\\..\\b", "./ok", "dir/"} {
+		out = append(out, c16Case{Kind: "extract", Ents: []c16Ent{reg(n, "data")}})
+	}
+	out = append(out, c16Case{Kind: "extract", Ents: []c16Ent{{Name: "l", Type: '2', Mode: 0o777, Link: "../../outside/target"}, reg("l", "x")}})
+	// DownloadTo: the file name comes from the URL
+	for _, u := range c16URLPaths {
+		out = append(out, c16Case{Kind: "download", URLPath: u})
+	}
+	out = append(out, c16Case{Kind: "download", URLPath: "/charts/x.tgz", Plant: []c16Plant{{Path: "x.tgz", Kind: "symlink", Target: "$OUT/target"}}})
+	// lock file: F9 witnesses (fixed by 2970e48) and the other shapes
+	for _, legacy := range []bool{false, true} {
+		name := "Chart.lock"
+		if legacy {
+			name = "requirements.lock"
+		}
+		out = append(out, c16Case{Kind: "lock", Legacy: legacy})
+		out = append(out, c16Case{Kind: "lock", Legacy: legacy, Plant: []c16Plant{{Path: name, Kind: "symlink", Target: "$OUT/target"}}})
+		out = append(out, c16Case{Kind: "lock", Legacy: legacy, Plant: []c16Plant{{Path: name, Kind: "symlink", Target: "../../outside/target"}}})
+		out = append(out, c16Case{Kind: "lock", Legacy: legacy, Plant: []c16Plant{{Path: name, Kind: "symlink", Target: "$OUT/dangling"}}})
+		out = append(out, c16Case{Kind: "lock", Legacy: legacy, Plant: []c16Plant{{Path: name, Kind: "file"}}})
+		out = append(out, c16Case{Kind: "lock", Legacy: legacy, Plant: []c16Plant{{Path: name, Kind: "dir"}}})
+	}
+	return out
+}
+
+func c16Exhaustive(tier string) []any { return nil }
